@@ -81,7 +81,6 @@ type htmlView struct {
 	Title     string
 	H1        string
 	MsgDiv    bool // <div class="message"> present (sign-out page error variant)
-	MetaCS    bool // charset declared in the document (meta charset / html charset attribute as sso's templates write it)
 	TokErr    string
 	Tree      string
 	Forms     int
@@ -209,9 +208,6 @@ func analyse(body []byte, needles []string, payload string) *htmlView {
 				}
 				if t.Data == "div" && a.Key == "class" && a.Val == "message" {
 					v.MsgDiv = true
-				}
-				if a.Key == "charset" {
-					v.MetaCS = true
 				}
 			}
 			rawParent = ""
